@@ -57,6 +57,10 @@ CHECKS["C07"] = dict(category="proof",
    technique="Lean 4 theorems about the model of BasicContentExecutor::process and the micro-steppers' per-block catch (Model.Exec), tied to the ASan+UBSan build by I = M trace comparison with failing elements injected at random block positions in ~30 concrete guises per datamodel; crash-freedom explored with sanitizers on element soup and corrupted charts",
    text="Proved for every block, element, chart and executor state of the model: a failing element leaves error.execution/error.communication in the internal queue behind everything queued before, exactly the remainder of its block is skipped, the following blocks run, no queued event is lost. The model is the interpreter's for the generated fragment because every run compares the full monitor trace (both engines, null/lua/promela datamodels) token by token. 'Never terminates abnormally / never out of bounds' is a statement about the C++ run time that no theorem over the model can carry: it is explored (sanitizers, random well-formed XML with garbage expressions, data-init/donedata/script failures), and labelled as such.",
    design_ref="6 / C07", note="Trusted: Lean kernel; hand model Model.Exec + trace harness; the concrete failing forms are re-validated each run (suite forms). Partial: memory safety and abnormal termination are exploration only; errors in finalize/invoke are left to C11.")
+CHECKS["C10"] = dict(category="proof",
+   technique="Lean 4 theorems about Model.Api (life-cycle API over both micro-stepper models), tied to the ASan+UBSan build by I = M comparison of random API operation sequences; teardown/reset/cancel under forced timer-thread schedules (USCXML_VERIF hooks) with a watchdog",
+   text="Proved for every chart, engine and operation sequence of the model: step results follow the life-cycle automaton, FINISHED is absorbing, CANCELLED is followed by exactly one finalising step running every active exit handler once, reset = fresh = destroy+recreate. The tie is the token-by-token comparison of the compiled interpreter with Model.Api.run on random operation sequences issued in every life-cycle state (also before the first step). Bounded-time destruction and safety under other threads are runtime facts outside the model: explored with schedule-forcing hooks, sanitizers and a watchdog, not proved.",
+   design_ref="6 / C10", note="Trusted: Lean kernel; hand model Model.Api/Large/Fast + api harness. Partial: thread interleavings (timer, invoker, callers on other threads) are explored, not proved.")
 PENDING = {}   # id -> reason (filled while the framework is being built)
 
 def main():
